@@ -66,26 +66,42 @@ def canon_ast(o: Any, depth: int = 0) -> Any:
     return d
 
 
-def first_diff(a: Any, b: Any, path: str = "") -> Optional[Tuple[str, Any, Any]]:
+def first_diff(a: Any, b: Any, path: str = "", cls: str = "") -> Optional[Tuple[str, Any, Any, str]]:
+    """first difference in document order: (path, a, b, 'Class.field' of the innermost AST node field that differs)"""
     if type(a) != type(b):
-        return (path, a, b)
+        return (path, a, b, cls)
     if isinstance(a, dict):
+        c = a.get("_") or a.get("_obj") or ""
+        if c != (b.get("_") or b.get("_obj") or ""):
+            return (path + "/_", c, b.get("_") or b.get("_obj"), (cls.split(".")[0] + ".<node>") if cls else "<node>")
         for k in sorted(set(a) | set(b)):
+            sub = f"{c}.{k}" if c else cls
             if k not in a or k not in b:
-                return (path + "/" + k, a.get(k, "<absent>"), b.get(k, "<absent>"))
-            r = first_diff(a[k], b[k], path + "/" + k)
+                return (path + "/" + k, a.get(k, "<absent>"), b.get(k, "<absent>"), sub)
+            r = first_diff(a[k], b[k], path + "/" + k, sub)
             if r:
                 return r
         return None
     if isinstance(a, list):
         if len(a) != len(b):
-            return (path + "/len", len(a), len(b))
+            return (path + "/len", len(a), len(b), cls)
         for i, (x, y) in enumerate(zip(a, b)):
-            r = first_diff(x, y, path + f"[{i}]")
+            r = first_diff(x, y, path + f"[{i}]", cls)
             if r:
                 return r
         return None
-    return None if a == b else (path, a, b)
+    return None if a == b else (path, a, b, cls)
+
+
+def walk(o: Any):
+    """all dict nodes of a canonical AST"""
+    if isinstance(o, dict):
+        yield o
+        for v in o.values():
+            yield from walk(v)
+    elif isinstance(o, list):
+        for x in o:
+            yield from walk(x)
 
 
 def statements_and_comments(text: str):
@@ -205,8 +221,8 @@ DEC_HEADER = HEADER + 'Definition Dn_ (neg : bool) (i f : string) : decn := {| d
 
 def float_bias(text: str) -> str:
     """sign of (binary double nearest to the literal) - (the literal), as a Coq comparison"""
-    d = Decimal(text)
-    x = Decimal(float(text))
+    d = abs(Decimal(text))            # rounding acts on the magnitude (the sign is printed separately)
+    x = abs(Decimal(float(text)))
     return "Eq" if x == d else ("Gt" if x > d else "Lt")
 
 
@@ -243,6 +259,8 @@ def in_model_domain(text: str) -> bool:
     neg, ip, fp = dec_parts(text)
     if len(fp) > 4 and len(ip) >= 10:
         return False
+    if len(ip) >= 17 and sig_digits(text) >= 2:
+        return False     # repr d.ddde+NN -> %f prints the digits of the exact binary value (not modelled; never a VTL literal: ends in '.')
     return True
 
 
@@ -336,7 +354,7 @@ def gen_data_case(rng, max_rows=8):
     if rng.random() < 0.4:
         sc.append(f"sc_null {arrow()} cast(null, {rng.choice(['string', 'integer', 'number', 'boolean'])});")
     if rng.random() < 0.3:
-        sc.append(f'sc_d {arrow()} cast("{rng.choice(DATE_VALUES)}", date);')
+        sc.append(f'sc_d {arrow()} cast("{rng.choice(DATE_VALUES + ["2020-01-15T10:30:00"])}", date);')
     if rng.random() < 0.3:
         sc.append(f'sc_p {arrow()} cast("{rng.choice(["2020Q1", "2021M3", "2019"])}", time_period);')
     stmts += sc
